@@ -256,22 +256,16 @@ var c13Auto = AutoCfg{"checkitem": {VarName: "VAR_RESULT"}, "specialvar": {ArgPo
 
 var c13ValWords = []string{"1", "2", "7", "0x10", "-3", "FLAG_BASE", "VAR_BASE", "ITEM_X", "ITEM_NONE", "step_end", "+", "-", "*", "|", "&"}
 
-func genC13(t *rapid.T) *C13Case {
-	cfg := DefaultFileCfg()
-	cfg.CF.MaxDepth = 3
-	cfg.CF.Auto = c13Auto
-	cfg.CF.AutoP = 6
-	cfg.CF.SymCases = true
-	cfg.MaxTops = 5
-	cfg.Raws = false
-	f := GenFile(t, cfg)
-	c := &C13Case{File: f}
+type cdef struct {
+	name   string
+	paren  bool
+	single bool // value is one identifier token
+}
+
+// constify inserts 1-5 const definitions at random positions of the file, uses them at
+// documented sites (before and after their definition) and plants the names at undocumented ones.
+func constify(t *rapid.T, f *File, auto AutoCfg) []cdef {
 	nconst := rapid.IntRange(1, 5).Draw(t, "nconst")
-	type cdef struct {
-		name   string
-		paren  bool
-		single bool // value is one identifier token
-	}
 	var defs []cdef
 	for i := 0; i < nconst; i++ {
 		name := fmt.Sprintf("K%d", i)
@@ -346,7 +340,7 @@ func genC13(t *rapid.T) *C13Case {
 		walkBlocks(blocks[n], func(b *Block) {
 			for _, s := range b.Stmts {
 				if s.K == "cmd" && s.Cmd.Name != "end" && s.Cmd.Name != "return" && s.Cmd.Name != "goto" && rapid.IntRange(0, 9).Draw(t, "plantcmd") == 0 {
-					if _, auto := cfg.CF.Auto[s.Cmd.Name]; !auto {
+					if _, auto := auto[s.Cmd.Name]; !auto {
 						s.Cmd.Name = defs[rapid.IntRange(0, len(defs)-1).Draw(t, "which")].name
 					}
 				}
@@ -399,6 +393,20 @@ func genC13(t *rapid.T) *C13Case {
 		pos := rapid.IntRange(0, len(sc.Body.Stmts)).Draw(t, "labelpos")
 		sc.Body.Stmts = append(sc.Body.Stmts[:pos], append([]*Stmt{sLabel(d.name)}, sc.Body.Stmts[pos:]...)...)
 	}
+	return defs
+}
+
+func genC13(t *rapid.T) *C13Case {
+	cfg := DefaultFileCfg()
+	cfg.CF.MaxDepth = 3
+	cfg.CF.Auto = c13Auto
+	cfg.CF.AutoP = 6
+	cfg.CF.SymCases = true
+	cfg.MaxTops = 5
+	cfg.Raws = false
+	f := GenFile(t, cfg)
+	c := &C13Case{File: f}
+	defs := constify(t, f, cfg.CF.Auto)
 	// redefinition
 	if rapid.IntRange(0, 7).Draw(t, "redef") == 0 {
 		c.Redef = true
